@@ -19,7 +19,7 @@ theorem C08_type_table : ∀ r ∈ Gen.C08.typeRows, typeRowOk r = true := by de
 /-- Slices, maps for free-form and additional-properties-only objects, named types for references — at top
 level and as optional members (pointers). -/
 theorem C08_shape_table : Gen.C08.shapeRows.all shapeRowOk = true ∧
-    (List.range 16).all (fun sh => Gen.C08.shapeRows.any (fun r => r.shape == sh && !r.asMember) &&
+    (List.range 17).all (fun sh => Gen.C08.shapeRows.any (fun r => r.shape == sh && !r.asMember) &&
       Gen.C08.shapeRows.any (fun r => r.shape == sh && r.asMember)) = true := by decide +kernel
 
 /-- The table enumerates the whole domain: 4 types × 21 formats. -/
